@@ -124,4 +124,57 @@ theorem byte_forall (P : UInt8 → Bool) (h : ∀ n : Fin 256, P (UInt8.ofNat n.
   have := h ⟨c.toNat, UInt8.toNat_lt c⟩
   simpa using this
 
+/-! ### rune iteration over a string whose loop body stops at the first non-ASCII rune -/
+
+theorem decodeRune_ascii (b : UInt8) (rest : Bytes) (h : b.toNat < 128) :
+    decodeRune (b :: rest) = (Int.ofNat b.toNat, 1) := by
+  simp [decodeRune, h]
+
+/-- a byte ≥ 0x80 never starts an ASCII rune: the decoded rune (a multi-byte one or U+FFFD) is ≥ 0x80 -/
+theorem decodeRune_nonascii (b : UInt8) (rest : Bytes) (h : 128 ≤ b.toNat) :
+    128 ≤ (decodeRune (b :: rest)).1 := by
+  have hb : b.toNat < 256 := UInt8.toNat_lt b
+  unfold decodeRune
+  simp only []
+  repeat' split
+  all_goals first
+    | (simp only [Int.ofNat_eq_natCast] at *; omega)
+    | omega
+    | decide
+
+/-- `for i, r := range s` whose body returns the same `x` for every rune ≥ 0x80 = the same body run over the
+    BYTES of `s` (each byte taken as a rune): both stop at the first byte ≥ 0x80 -/
+theorem loop_runesFrom_bytes {ρ σ : Type} (body : Int × Int → σ → Ctl ρ σ) (x : ρ)
+    (hstop : ∀ off r st, 128 ≤ r → body (off, r) st = Ctl.ret x) :
+    ∀ (fuel : Nat) (s : Bytes) (off : Int) (st : σ), s.length ≤ fuel →
+      loop (runesFrom fuel off s) st body = loop (enumFrom off s) st (fun p st => body (p.1, Int.ofNat p.2.toNat) st) := by
+  intro fuel
+  induction fuel with
+  | zero =>
+    intro s off st h
+    have : s = [] := List.length_eq_zero_iff.mp (Nat.le_zero.mp h)
+    subst this; rfl
+  | succ fuel ih =>
+    intro s off st h
+    cases s with
+    | nil => rfl
+    | cons b rest =>
+      by_cases hb : b.toNat < 128
+      · simp only [runesFrom, enumFrom, loop, decodeRune_ascii b rest hb, List.drop_succ_cons, List.drop_zero]
+        cases body (off, Int.ofNat b.toNat) st with
+        | next s' =>
+          have := ih rest (off + 1) s' (by simpa using h)
+          simpa using this
+        | brk s' => rfl
+        | ret r => rfl
+      · have hb' : 128 ≤ b.toNat := by omega
+        have h1 := hstop off (decodeRune (b :: rest)).1 st (decodeRune_nonascii b rest hb')
+        have h2 := hstop off (Int.ofNat b.toNat) st (by simp only [Int.ofNat_eq_natCast]; omega)
+        simp only [runesFrom, enumFrom, loop, h1, h2]
+
+theorem loop_runes_bytes {ρ σ : Type} (body : Int × Int → σ → Ctl ρ σ) (x : ρ)
+    (hstop : ∀ off r st, 128 ≤ r → body (off, r) st = Ctl.ret x) (s : Bytes) (st : σ) :
+    loop (runes s) st body = loop (enumFrom 0 s) st (fun p st => body (p.1, Int.ofNat p.2.toNat) st) :=
+  loop_runesFrom_bytes body x hstop s.length s 0 st (Nat.le_refl _)
+
 end GB.Trans
